@@ -538,6 +538,46 @@ macro_rules! pear_events {
     }};
 }
 
+/// The `Display` rendering binds coefficients to feature names: line i is `name_i`, padding, then the
+/// coefficients of the pairs (i, j), j > i, with two decimals; the last line is the last name alone.
+/// Logged as rows `[index i of the name "f<i>:" (or -1), [round(value * 100) ..]]` (99999 = not a number).
+fn pear_display(cols: &[Vec<i64>], p: i64, out: &mut Vec<Value>) {
+    let m = cols.len();
+    let n = cols[0].len();
+    let data: Array2<f64> = Array2::from_shape_fn((n, m), |(i, j)| cols[j][i] as f64);
+    let r = guarded(|| {
+        // names end in ':' because Display puts no blank between the longest name and the first coefficient
+        let names: Vec<String> = (0..m).map(|j| format!("f{}:", j)).collect();
+        let ds = DatasetBase::from(data.clone()).with_feature_names(names);
+        format!("{}", ds.pearson_correlation())
+    });
+    match r {
+        Ok(text) => {
+            let rows: Vec<Value> = text
+                .lines()
+                .filter(|l| !l.trim().is_empty())
+                .map(|l| {
+                    let (name, rest) = match l.find(':') {
+                        Some(k) => (&l[..k], &l[k + 1..]),
+                        None => ("", l),
+                    };
+                    let idx = name.trim().strip_prefix('f').and_then(|x| x.parse::<i64>().ok()).unwrap_or(-1);
+                    let vals: Vec<i64> = rest
+                        .split_whitespace()
+                        .map(|t| match t.parse::<f64>() {
+                            Ok(v) if v.is_finite() => (v * 100.0).round() as i64,
+                            _ => 99999,
+                        })
+                        .collect();
+                    json!([idx, vals])
+                })
+                .collect();
+            out.push(json!({"ev": "peard", "p": p, "rows": rows}));
+        }
+        Err(msg) => out.push(panic_event("pearson_display", &msg)),
+    }
+}
+
 fn run_pear(inp: &Value) -> Vec<Value> {
     let cols = imat(&inp["cols"]);
     let n = cols[0].len();
@@ -550,6 +590,7 @@ fn run_pear(inp: &Value) -> Vec<Value> {
     for (p, x) in variants {
         pear_events!(f64, "f64", x, p, out);
         pear_events!(f32, "f32", x, p, out);
+        pear_display(&x, p, &mut out);
     }
     out
 }
